@@ -1145,7 +1145,7 @@ impl FlexScen {
             0 | 1 => "-".to_string(),
             2 => format!("+{}", rng.pick(&self.pool)),
             3 => "-cosmwasm1m".to_string(),
-            4 if rng.chance(1, 2) => format!("-{INVALID_ADDR}"),
+            4 if rng.chance(1, 2) => format!("-{}", invalid_addr(rng, &self.pool)),
             _ if !members.is_empty() => format!("+{}", rng.pick(members).0),
             _ => "-".to_string(),
         };
@@ -1388,7 +1388,7 @@ impl FlexScen {
         };
         for _ in 0..nr {
             if marks && rng.chance(1, 40) {
-                remove.push(format!("-{INVALID_ADDR}"));
+                remove.push(format!("-{}", invalid_addr(rng, &self.pool)));
             } else {
                 remove.push(mk(rng.pick(&cand).to_string()));
             }
@@ -1815,7 +1815,29 @@ impl FlexScen {
                     if rng.chance(1, 2) || voters.is_empty() { if rng.chance(4, 5) { a } else { rng.pick(&self.pool).clone() } } else { rng.pick(&voters).clone() }
                 }
                 Some(Executor::Member) => {
-                    if rng.chance(1, 4) && !voters.is_empty() { rng.pick(&voters).clone() } else { member_or_any(rng, 85) }
+                    // addresses whose membership changed earlier in THIS block (the start-of-block snapshot and the
+                    // live answer differ): a member removed a moment ago must be refused, one added a moment ago admitted
+                    let h = self.block.height;
+                    let flipped: Vec<Addr> = self
+                        .pool
+                        .iter()
+                        .filter(|m| {
+                            let at = |hh: Option<u64>| {
+                                self.qs::<MemberResponse>(&self.group, &GroupQuery::Member { addr: m.to_string(), at_height: hh })
+                                    .and_then(|r| r.weight)
+                                    .is_some()
+                            };
+                            at(Some(h)) != at(None)
+                        })
+                        .cloned()
+                        .collect();
+                    if !flipped.is_empty() && rng.chance(1, 2) {
+                        rng.pick(&flipped).clone()
+                    } else if rng.chance(1, 4) && !voters.is_empty() {
+                        rng.pick(&voters).clone()
+                    } else {
+                        member_or_any(rng, 85)
+                    }
                 }
                 _ => rng.pick(&self.pool).clone(),
             };
